@@ -339,6 +339,11 @@ class Check(BaseCheck):
             num('DAYS("%s","%s")' % (tb, ta), 'DAYS(date-time text)', sb - sa, fb - fa)
             num('DAYS(d_b,"%s")' % ta, 'DAYS(date-time text)', sb - sa, fb - fa)
             num('DATEVALUE("%s")' % ta, 'DATEVALUE(date-time text)', sa, fa)
+            # whichever of the two readings DATEVALUE takes, it takes the same one for the same instant however that instant arrives
+            v_txt, v_obj, v_cmp = e.val('DATEVALUE("%s")' % ta), e.val('DATEVALUE(d_a)'), e.val('DATEVALUE("%s")=DATEVALUE(d_a)' % ta)
+            rec.case()
+            if not (is_num(v_txt) and is_num(v_obj) and abs(v_txt - v_obj) < 1e-7 and v_cmp is True):
+                rec.violation('C13/formula:DATEVALUE-sees-another-serial-for-text-than-for-the-same-date-time', text=ta, d_a=a, from_text=v_txt, from_date_time=v_obj, equal=v_cmp)
             num('"%s"-"%s"' % (tb, ta), 'datetime-datetime(text)', sb - sa)
         for op, exp in (('<', a < b), ('=', a == b), ('>', a > b), ('<=', a <= b), ('>=', a >= b), ('<>', a != b)):
             self.expect_is(rec, e, 'd_a%sd_b' % op, exp, 'datetime%sdatetime' % op)
